@@ -221,7 +221,10 @@ def run(ctx: core.Ctx):
                     o = np.zeros(n, "int16")
                     I["gammastd_grp"](rr, g, 2, -9999.0, cal, o)
                     return o
-                cmp("gammastd_grp", dict(x=rr.tolist(), dtype=dt), lambda: stats.gammastd_grp(rr, g, 2.0, -9999.0, cal), it_grp, kind="band")
+                if all(len(set(v for v in rr[g == k_].tolist() if v > 0)) >= 2 for k_ in (0, 1)):
+                    cmp("gammastd_grp", dict(x=rr.tolist(), dtype=dt), lambda: stats.gammastd_grp(rr, g, 2.0, -9999.0, cal), it_grp, kind="band")
+                else:
+                    ctx.count("gammastd_grp: group with < 2 distinct positive values (s == 0 knife-edge in float32): skipped")
         z = float(rng.uniform(-4, 4))
         cmp("mk_z_score", dict(s=7, vs=33.3), lambda: stats.mk_z_score(7, 33.3), lambda: I["mk_z_score"](7, 33.3))
         cmp("mk_p_value", dict(z=z), lambda: stats.mk_p_value(z), lambda: I["mk_p_value"](z))
